@@ -31,6 +31,7 @@ def run(ctx: Ctx):
     from .common import slice_index_space
 
     slice_index_space(ctx, "baseline-source.index-space")
+    slice_argument(ctx)
     formula(ctx)
     independence(ctx)
     from .common import no_shared_writes
@@ -43,6 +44,9 @@ def run(ctx: Ctx):
 
     dependency_footprints(ctx)
     no_explicit_nan(ctx)
+    from .common import public_values_assembled
+
+    public_values_assembled(ctx, "public-assembled", "_Slice", ("column_index",))
 
 
 def _ops_text(av: AV) -> str:
@@ -184,6 +188,25 @@ def factory(ctx: Ctx):
     labels = data_labels(reads)
     ctx.ob("baseline-provenance", f"{LY.MCM}::CubeMeasures.unconditional_cube_counts.baseline", sorted(labels), "['W*']", labels == {"W*"}, "only counts-with-missings feed the baseline")
     ctx.ob("baseline-independence", f"{LY.MCM}::CubeMeasures.unconditional_cube_counts.baseline", sorted(transform_reads(reads)), "[]", not transform_reads(reads), "hiding / pruning / ordering plays no part in who is eligible")
+
+
+def slice_argument(ctx: Ctx):
+    """The factory already restricts the table axis to the valid table elements, so the slice index it receives must be
+    the ordinal among valid elements - i.e. the partition's own `_slice_idx`, untranslated (a second translation picks a
+    later table's baseline)."""
+    cm = ctx.repo.cls(LY.MCM, "CubeMeasures")
+    where = f"{LY.MCM}::CubeMeasures.unconditional_cube_counts"
+    body = SUMMARIZER.summarize(ctx.repo.lookup(cm, "unconditional_cube_counts").node)
+    n = 0
+    for _g, leaf in strip_ifexp_paths(body):
+        if isinstance(leaf, ast.Call) and u(leaf.func).endswith(".factory"):
+            args = list(leaf.args)
+            tail = [u(a) for a in args[-3:]]
+            n += 1
+            ctx.ob("baseline-source.slice-argument", where, tail, "[self._cube, self._dimensions, self._slice_idx]", tail == ["self._cube", "self._dimensions", "self._slice_idx"],
+                   "the factory indexes the valid-table-restricted array by the partition's ordinal")
+    if not n:
+        ctx.undecided("baseline-source.slice-argument", where, "factory call not found", "_BaseUnconditionalCubeCounts.factory(self._cube, self._dimensions, self._slice_idx)")
 
 
 def formula(ctx: Ctx):
